@@ -21,6 +21,7 @@ BODIES = [
     match(["v", "id"], "==", "2"), match(["v", "x"], "==", "1"), match(["v", "V"], "==", "2"), match(["v", "0"], "==", "1"), match(["v", "X"], "==", "3"),
     match(["v", "zz"], "==", "1"), match(["v", "attr", "k"], "==", "v"), match(["v", "tags"], "notempty"),
     match(["k"], "==", "a"), match(["k"], "==", "1"), match(["k"], "!=", "b"), match(["k"], "matches", "^[ab]$"), match(["k", "x"], "==", "1"),
+    match(["v"], "==", "n:x"), match(["v"], "!=", "dflt"), match(["v", "a"], "==", "1"),
     match(["top"], "==", "5"), match(["x"], "==", "shadowed-top"), match(["zz"], "==", "1"),
     {"t": "or", "l": match(["k"], "==", "b"), "r": match(["zz"], "==", "1"), "val": "", "hv": False, "mode": "", "n1": "", "n2": ""},
     {"t": "and", "l": match(["v"], "!=", "0"), "r": match(["top"], "==", "5"), "val": "", "hv": False, "mode": "", "n1": "", "n2": ""},
@@ -42,7 +43,7 @@ def main():
     quick = chk.tier == "quick"
     nontrivial = 0
     lens = {}
-    for wn, cfgsel in (("records", [0, 2]), ("containers", [0]), ("json", [0])):
+    for wn, cfgsel in (("records", [0, 2]), ("containers", [0]), ("json", [0]), ("wrapped", [10, 15, 16])):
         data = json.loads(vlib.harness(["data", "-worlds", wn]).stdout)
         paths = []
         for d in data["docs"]:
